@@ -96,8 +96,10 @@ def shard(job):
             codes = rnd.sample(ISO, 6 if tier == "quick" else 60) + ["FR", "us"]
             for c in codes:
                 for lab in (c.lower(), c.upper(), c.lower() + "-" + rnd.choice(ISO).lower(), c.lower() + "-" + c.upper()):
-                    check_equal(col, "language-subdomain", u, "http://%s.%s%s" % (lab, host, tail), kw, r0)
-                    check_equal(col, "language-subdomain+www", u, "http://www.%s.%s%s" % (lab, host, tail), kw, r0)
+                    # (the amp- base host has its own clause names: its known finding must not fill the per-clause cap of the others)
+                    tag = "(amp-host)" if host.startswith("amp-") else ""
+                    check_equal(col, "language-subdomain" + tag, u, "http://%s.%s%s" % (lab, host, tail), kw, r0)
+                    check_equal(col, "language-subdomain+www" + tag, u, "http://www.%s.%s%s" % (lab, host, tail), kw, r0)
             platform_host = kw.get("platform_aware") and host in ("youtube.com", "facebook.com")
             for bad in ([] if platform_host else NOT_CODES):
                 check_differs_host(col, "two-letter-label-that-is-no-country-code", u, "http://%s.%s%s" % (bad, host, tail), kw)
